@@ -50,6 +50,7 @@ PROPS = {
             det("step", "^TestC10Step$"),
             det("short", "^TestC10Short$"),
             rap("split", "^TestC10Split$", 1500, 6000, 2, 16, qscale=2),
+            rap("sections", "^TestC10Sections$", 1000, 8000, 4, 16),
         ],
     },
     "C15": {
@@ -276,6 +277,7 @@ PROPS = {
         "units": [
             rap("inputs", "^TestC03Inputs$", 8000, 100000, 4, 16),
             rap("truncation", "^TestC03Truncation$", 20, 150, 6, 16),
+            rap("descriptor_lengths", "^TestC03DescriptorLengths$", 150, 1500, 4, 16),
             {"name": "fuzz_bytes", "fuzz": "FuzzC03", "thorough": {"fuzztime": "150s", "timeout": 600}},
             {"name": "fuzz_sections", "fuzz": "FuzzC03Sections", "thorough": {"fuzztime": "120s", "timeout": 600}},
             {"name": "fuzz_structured", "fuzz": "FuzzC03Structured", "thorough": {"fuzztime": "120s", "timeout": 600}},
